@@ -432,8 +432,15 @@ fn doc_join(name: &str, parent: &str) -> String {
 
 /// a fresh environment whose loader is the REAL `path_loader(base)`, constructed now
 fn make_env(base: &Path, form: &str) -> Environment<'static> {
+    make_env_with(path_loader(base), form)
+}
+
+fn make_env_with<F>(loader: F, form: &str) -> Environment<'static>
+where
+    F: Fn(&str) -> Result<Option<String>, minijinja::Error> + Send + Sync + 'static,
+{
     let mut env = Environment::new();
-    env.set_loader(path_loader(base));
+    env.set_loader(loader);
     if form == "joincb" {
         env.set_path_join_callback(|name, parent| Cow::Owned(doc_join(name, parent)));
     }
@@ -525,6 +532,51 @@ fn run_tl(l: &Loaders, out: &mut dyn Write) {
             writeln!(out, "tl {} {}\t{}", vname, n, r).unwrap();
         }
     }
+}
+
+// ------------------------------------------------------------------------------------ routes
+//
+// `rt <variant> <form> <name>\t<names the loader closure was called with, in order>\t<result>\t
+//      <candidate store name>,<hook path>,<disk answer - ! +> …`
+//
+// A FRESH environment per request whose loader is the real `path_loader(base)` wrapped in a
+// recorder: which names reach the loader closure, over which route, is compared with the Lean
+// model of the routes (`Engine.loaderCalls`, `MJ/Model/PathRoutes.lean`).
+
+fn run_rt(base: &Path, form_idx: usize, name: &str) -> String {
+    let (form, src) = FORMS[form_idx];
+    let rec: std::sync::Arc<std::sync::Mutex<Vec<String>>> = Default::default();
+    let rec2 = rec.clone();
+    let inner = path_loader(base);
+    let env = make_env_with(
+        move |n: &str| {
+            rec2.lock().unwrap().push(pct(n.as_bytes()));
+            inner(n)
+        },
+        form,
+    );
+    let r = run_form(&env, form, src, name);
+    let calls = rec.lock().unwrap().join(",");
+    let mut cands: Vec<String> = vec![name.to_string(), "inc".into(), "mj17-nope".into()];
+    if form == "joincb" {
+        cands.push(doc_join(name, CB_PARENT));
+    }
+    // `<name>,<hook path>,<- | ! | +>`: the comma is the one printable character `pct` always encodes
+    let d: Vec<String> = cands
+        .iter()
+        .map(|c| match guarded(|| safe_join(base, c)) {
+            Ok(Some(p)) => {
+                let cls = match disk_answer(&p).as_str() {
+                    "-" => "-",
+                    "!" => "!",
+                    _ => "+",
+                };
+                format!("{},{},{}", pct(c.as_bytes()), pct(p.as_os_str().as_bytes()), cls)
+            }
+            _ => format!("{},,-", pct(c.as_bytes())),
+        })
+        .collect();
+    format!("{}\t{}\t{}", calls, r, d.join(" "))
 }
 
 // ------------------------------------------------------------------------------------ lifecycle
@@ -897,6 +949,53 @@ fn shaped(t: &Tree) -> Vec<String> {
     v
 }
 
+/// ESCAPES AT EVERY DEPTH (generalises the seeded change C17-6 and the own mutants m13 / m21-m23):
+/// names of 2..=41 segments in which the escaping piece sits at EVERY position, so that a filter
+/// that looks at a window of the pieces only (the first K: `splitn`, `take`, `enumerate` + limit;
+/// all but the first K: `skip`; the last K: `rsplitn`) lets one of them through, whatever K is.
+/// The pieces around the `..` are empty segments (they resolve wherever the path is) and — in the
+/// second family — up to four real directories `a` (they exist beneath the base) matched by as
+/// many extra `..`; the third family puts an ABSOLUTE canary path behind i leading pieces (the
+/// unfiltered remainder of a limited split starts with `/` and replaces the base when pushed).
+fn deep(t: &Tree) -> Vec<String> {
+    let mut v: Vec<String> = vec![];
+    let tails = ["a.", "onlyoutside", "only_outside.txt", "sibling/only_sibling.txt"];
+    for n in 2usize..=41 {
+        for i in 0..n - 1 {
+            // family 1: empties, one `..`, empties, the canary's name (`base//..///a.` = `p4/a.`)
+            let tail = tails[(n + i) % tails.len()];
+            let mut segs = vec![""; n];
+            segs[i] = "..";
+            segs[n - 1] = tail;
+            v.push(segs.join("/"));
+            // family 2: d real directories among the pieces before position i, d+1 `..` from i on
+            let d = 1 + (n + 2 * i) % 4;
+            if i >= d && i + d + 1 < n {
+                let mut segs = vec![""; n];
+                for j in 0..d {
+                    // spread the directories over the pieces in front of the escape
+                    segs[j * i / d] = "a";
+                }
+                for j in 0..=d {
+                    segs[i + j] = "..";
+                }
+                segs[n - 1] = tail;
+                v.push(segs.join("/"));
+            }
+        }
+    }
+    // family 3: i pieces (empty / real directories), then an absolute canary path
+    for abs in [t.p4.join("a."), t.p4.join("onlyoutside"), t.root.join("a.")] {
+        let abs = abs.to_str().unwrap().to_string();
+        for i in 0usize..=41 {
+            v.push(format!("{}{}", "/".repeat(i), abs));
+            v.push(format!("{}{}{}", "a/".repeat(i.min(4)), "/".repeat(i.saturating_sub(4)), abs));
+            v.push(format!("x{}{}", "/".repeat(i), abs));
+        }
+    }
+    v
+}
+
 /// Windows spellings as plain data on this platform: device names, drive prefixes, UNC / verbatim
 /// / device-namespace prefixes, alternate data streams, trailing dots and blanks, short names
 const WINDOWS_DATA: [&str; 44] = [
@@ -965,6 +1064,7 @@ fn targeted(t: &Tree) -> Vec<String> {
     }
     v.extend(disguised(t));
     v.extend(shaped(t));
+    v.extend(deep(t));
     v.extend(WINDOWS_DATA.iter().map(|s| s.to_string()));
     v
 }
@@ -1044,6 +1144,32 @@ fn main() {
             if k == 0 {
                 run_tl(&l, &mut out);
                 run_lifecycle(&t, &mut out, None);
+                // the routes: every form for every targeted name, 1..2-segment alphabet names and noise,
+                // the two spellings of the base in rotation
+                let mut names: Vec<String> = targeted(&t);
+                names.extend(lc_names(&t.root.join("lc"), &t.root));
+                for x in &alpha {
+                    names.push(x.clone());
+                    for y in &alpha {
+                        names.push(format!("{x}/{y}"));
+                    }
+                }
+                for _ in 0..(if thorough { 5000 } else { 500 }) {
+                    names.push(noise_name(&mut rng));
+                }
+                let mut seen = std::collections::BTreeSet::new();
+                names.retain(|n| seen.insert(n.clone()));
+                for (i, name) in names.iter().enumerate() {
+                    let (vn, b) = &vs[if i % 2 == 0 { 0 } else { 2 }];
+                    for fi in 0..FORMS.len() {
+                        // the first 1000 (thorough: 6000) names over every form, the others over one
+                        // form in rotation
+                        if i >= (if thorough { 6000 } else { 1000 }) && (i + fi) % FORMS.len() != 0 {
+                            continue;
+                        }
+                        writeln!(out, "rt {} {} {}\t{}", vn, FORMS[fi].0, pct(name.as_bytes()), run_rt(b, fi, name)).unwrap();
+                    }
+                }
             }
             if k == 0 {
                 // the std functions the model transcribes, outside the region `safe_join` reaches
@@ -1158,6 +1284,13 @@ fn main() {
                         .find(|l| l.starts_with(&want))
                         .and_then(|l| l.split_once('\t').map(|x| x.1.to_string()))
                         .unwrap_or_else(|| "bad-case".into())
+                }
+                Some("rt") => {
+                    let t = build_tree();
+                    let vs = variants(&t);
+                    let fi = FORMS.iter().position(|x| x.0 == f[2]).unwrap_or(0);
+                    let b = vs.iter().find(|x| x.0 == f[1]).map(|x| x.1.clone()).unwrap_or_else(|| vs[0].1.clone());
+                    run_rt(&b, fi, &String::from_utf8(arg(3)).unwrap())
                 }
                 Some("ld") => {
                     let t = build_tree();
